@@ -143,9 +143,9 @@ def build_gate(d):
         return qib.ISwapGate(qubit(qs[0]), qubit(qs[1]))
     if k in ("cz", "cx"):
         t = qib.PauliZGate if k == "cz" else qib.PauliXGate
-        return qib.ControlledGate(t(qubit(qs[1])), 1).set_control(qubit(qs[0]))
+        return qib.ControlledGate(t(qubit(qs[1])), 1, d.get("cs")).set_control(qubit(qs[0]))
     if k == "ccx":
-        return qib.ControlledGate(qib.PauliXGate(qubit(qs[2])), 2).set_control(qubit(qs[0]), qubit(qs[1]))
+        return qib.ControlledGate(qib.PauliXGate(qubit(qs[2])), 2, d.get("cs")).set_control(qubit(qs[0]), qubit(qs[1]))
     if k == "measure":
         return op.MeasureInstruction([qubit(i) for i in qs], d.get("c"))
     if k == "barrier":
@@ -355,11 +355,34 @@ def impl_counts(case):
     return out
 
 
+CTRL_TARGETS = {"x": lambda qib, op, q: qib.PauliXGate(q), "y": lambda qib, op, q: qib.PauliYGate(q), "z": lambda qib, op, q: qib.PauliZGate(q),
+                "h": lambda qib, op, q: qib.HadamardGate(q), "rx": lambda qib, op, q: qib.RxGate(0.5, q), "ry": lambda qib, op, q: qib.RyGate(0.5, q),
+                "rz": lambda qib, op, q: qib.RzGate(0.5, q), "s": lambda qib, op, q: op.SGate(q), "sdg": lambda qib, op, q: op.SAdjGate(q),
+                "t": lambda qib, op, q: op.TGate(q), "tdg": lambda qib, op, q: op.TAdjGate(q), "sx": lambda qib, op, q: qib.SxGate(q),
+                "id": lambda qib, op, q: qib.IdentityGate(q)}
+PLAIN_CTRL_MEANING = {"ccx": [1, 1], **{n: [1] for n in ("cx", "cy", "cz", "ch", "crx", "cry", "crz", "cs", "csdg")}}
+
+
+def impl_ctrlname(case):
+    qib = _ctx["qib"]
+    cs = case["ctrl_state"]
+    g = qib.ControlledGate(CTRL_TARGETS[case["target"]](qib, qib.operator, qubit(len(cs))), len(cs), cs).set_control([qubit(i) for i in range(len(cs))])
+    try:
+        d = g.as_qasm()
+        return {"name": d["name"], "qubits": d["qubits"]}
+    except NotImplementedError:
+        return {"raised": "NotImplemented"}
+
+
 def impl(case):
+    if case["op"] == "wmi.ctrlname":
+        return impl_ctrlname(case)
     return {"wmi.submit": impl_submit, "wmi.validate": impl_validate, "wmi.counts": impl_counts}[case["op"]](case)
 
 
 def model_req(case):
+    if case["op"] == "wmi.ctrlname":
+        return {"op": "wmi.ctrlname", "target": case["target"], "ctrl_state": case["ctrl_state"]}
     if case["op"] == "wmi.counts":
         return {"op": "wmi.counts", "instrs": [model_instr(d) for d in case["instrs"]], "items": case["items"]}
     r = {"op": case["op"], "shots": shots_of(case), "instrs": [model_instr(d) for d in case["instrs"]]}
@@ -378,6 +401,10 @@ def has_noqasm(case):
 def compare(case, o, m):
     if "harness_exception" in o:
         return "harness exception: " + o["harness_exception"] + " " + o.get("tb", "")
+    if case["op"] == "wmi.ctrlname":
+        if o.get("raised") != m.get("raised") or o.get("name") != m.get("name"):
+            return f"controlled-gate name: impl {o} != model {m}"
+        return None
     if case["op"] == "wmi.counts":
         if "raised" in o or "raised" in m:
             if o.get("raised") != m.get("raised"):
@@ -538,11 +565,24 @@ def first_offender(cd, shots, instrs):
     return "ok", None
 
 
+NEG_KEY = "C18:qobj:negated-control-serialised-as-plain"
+
+
+def negated(d):
+    return d["k"] in ("cz", "cx", "ccx") and d.get("cs") is not None and 0 in d["cs"]
+
+
 def oracle(case, o):
     if "harness_exception" in o:
         return []
     if case["op"] == "wmi.counts":
         return oracle_counts(case, o)
+    if case["op"] == "wmi.ctrlname":
+        # the name, if any, must denote the gate's own control state
+        if "name" in o and PLAIN_CTRL_MEANING.get(o["name"]) != case["ctrl_state"]:
+            return [(NEG_KEY, f"ControlledGate({case['target']}, {len(case['ctrl_state'])}, ctrl_state={case['ctrl_state']}).as_qasm() says "
+                              f"{o['name']!r}, which means control state {PLAIN_CTRL_MEANING.get(o['name'])}")]
+        return []
     bad = []
     if case["op"] == "wmi.submit":
         live = _ctx["procs"][case["proc"]].configuration()
@@ -579,6 +619,11 @@ def oracle(case, o):
             bad.append((f"C18:accepted-not-sent:{site}", f"accepted but no request was made; {descr}"))
     if not refused:
         bad += oracle_qobj(case, o, cd, nv)
+        neg = [i for i, d in enumerate(case["instrs"]) if negated(d)]
+        if neg and o.get("body") is not None:
+            d = case["instrs"][neg[0]]
+            bad.append((NEG_KEY, f"instruction {neg[0]} is a {d['k']} with control state {d['cs']} (acts when a control is |0>), the Qobj "
+                                 f"{'sent' if case['op'] == 'wmi.submit' else 'built'} says {o['body']['qobj']['experiments'][0]['instructions'][neg[0]]}; {descr}"))
     return bad
 
 
@@ -627,6 +672,10 @@ def candidates(cd, rng):
             {"k": "barrier", "q": []}, {"k": "barrier", "q": [0]}, {"k": "barrier", "q": [0, 1]}, {"k": "barrier", "q": [n]},
             {"k": "delay", "q": [0], "dur": 16}, {"k": "delay", "q": [0, n + 1], "dur": 4},
             {"k": "noqasm", "q": [0, 1], "p": [0.5]}]
+    if n >= 2:   # controls acting on |0> (the code names them like the plain gates: known finding)
+        out += [{"k": "cz", "q": [0, 1], "cs": [0]}, {"k": "cx", "q": [1, 0], "cs": [0]}, {"k": "cz", "q": [1, 0], "cs": [1]}]
+    if n >= 3:
+        out += [{"k": "ccx", "q": [0, 1, 2], "cs": [1, 0]}, {"k": "ccx", "q": [2, 0, 1], "cs": [1, 1]}]
     return out
 
 
@@ -757,9 +806,19 @@ def gen_counts(tier, rng):
         yield {"op": "wmi.counts", "instrs": circs[1], "items": [[badkey, 2]]}
 
 
+def gen_ctrlnames():
+    for t in CTRL_TARGETS:
+        for L in (1, 2, 3):
+            for cs in itertools.product([1, 0], repeat=L):
+                yield {"op": "wmi.ctrlname", "target": t, "ctrl_state": list(cs)}
+
+
 def gen_cases(tier, rng):
     thorough = tier == "thorough"
     setup()
+    # witness of the known finding, replayed first on every run
+    yield {"op": "wmi.submit", "proc": "qsim", "instrs": [{"k": "cz", "q": [0, 1], "cs": [0]}], "outcomes": OK_OUT, "tag": "ok"}
+    yield from gen_ctrlnames()
     for proc in ("qsim", "qc"):
         cd = cfg_descr(_ctx["procs"][proc].configuration())
 
@@ -784,7 +843,9 @@ def gen_cases(tier, rng):
 def run(rep, tier, rng, drv):
     def cases():
         for c in gen_cases(tier, rng):
-            if c["op"] != "wmi.counts":
+            if c["op"] == "wmi.ctrlname":
+                rep.count("ctrlname")
+            elif c["op"] != "wmi.counts":
                 tag = c.pop("tag")
                 rep.count(("shipped:" if c["op"] == "wmi.submit" else "custom:") + tag.split("@")[0])
                 if "@" in tag:
@@ -793,5 +854,5 @@ def run(rep, tier, rng, drv):
             else:
                 rep.count("counts")
             yield c
-    run_correspondence(rep, drv, cases(), impl, model_req, compare, oracle, "wmi.submit/wmi.validate/wmi.counts",
-                       nontrivial=lambda c, o: bool(c["instrs"]) or c["op"] == "wmi.counts")
+    run_correspondence(rep, drv, cases(), impl, model_req, compare, oracle, "wmi.submit/wmi.validate/wmi.counts/wmi.ctrlname",
+                       nontrivial=lambda c, o: bool(c.get("instrs")) or c["op"] in ("wmi.counts", "wmi.ctrlname"))
